@@ -32,10 +32,10 @@ def main():
     nfix = sum(1 for l in open(os.path.join(V, "seeded", "INDEX.fixes.md")) if l.startswith("| revert")) if os.path.exists(os.path.join(V, "seeded", "INDEX.fixes.md")) else 0
     text = """## 7. Seeded changes and which checks catch them
 
-`/verif/seeded/<id>/` holds **%d changes that break a property** (`M-*`), written by independent sub-agents over eleven
+`/verif/seeded/<id>/` holds **%d changes that break a property** (`M-*`), written by independent sub-agents over twelve
 rounds (each given only one property's text and its own scratch worktree of /repo, nothing from /verif; from round 2 on
 additionally one sentence saying where to look or what had already been done, so that it would do something different),
-and **%d behaviour-preserving refactors** (`E-*`, seven rounds). Each `M-*` was **confirmed by me** with
+and **%d behaviour-preserving refactors** (`E-*`, eight rounds). Each `M-*` was **confirmed by me** with
 `tools/confirm_mutant.sh` in a scratch worktree: the patch applies, the whole pinned suite is rebuilt (`ninja -k 0`, no
 failing target other than the two that never build here) and passes, the demonstration exits 0 without and non-zero with
 the change (`seeded/<id>/confirm.txt`, `meta.json`). None is ever committed to /repo; `tools/seeded.py` applies each to a
@@ -48,7 +48,7 @@ State at the end: **%d of the %d are reported with exit 1 by at least one quick 
 they were written against**; not reported: %s. %d of them were *not* reported (or reported only as exit 2) when first
 run; what was strengthened is in the last column. The miss rate fell from round to round (rounds 1-2: 15 of 35; round 8:
 5 of 7; round 9: 5 of 12, three of them duplicates of earlier changes found again for another property; round 10, whose
-agents were told to stay out of Knuth's division: 0 of 8; round 11: 2 of 6 missed and one reported only as exit 2, all three closed). The strengthenings exposed genuine defects of the pinned tree (D18/D19,
+agents were told to stay out of Knuth's division: 0 of 8; round 11: 2 of 6 missed and one reported only as exit 2, all three closed; round 12: 0 of 3). The strengthenings exposed genuine defects of the pinned tree (D18/D19,
 D20, D22, D23, D24) and two engine bugs of mine (section 6).
 
 | change | property | what was changed | what it needs to manifest | confirmed | reported by (violations, quick tier) | history |
@@ -56,14 +56,14 @@ D20, D22, D23, D24) and two engine bugs of mine (section 6).
 %s
 
 **Behaviour-preserving changes.** To test the other direction ("never raise an alarm on code where the property
-holds") sub-agents were asked, in seven rounds, for a realistic refactor of the code a property is anchored in that keeps
+holds") sub-agents were asked, in eight rounds, for a realistic refactor of the code a property is anchored in that keeps
 behaviour identical for every instantiation and input (if/else for conditional expressions, hoisted sub-expressions,
 inlined or extracted helpers, `if constexpr` for tag-dispatch structs, named locals, De Morgan, loops rewritten, aliases
 …), each with its own differential argument (`seeded/E-*/notes.md`). They are part of `tools/seeded.py`'s run; the
-expected outcome is exit 0 for every check listed. Two of them raised an alarm when first run and the machinery — not the
+expected outcome is exit 0 for every check listed. Three of them raised an alarm when first run and the machinery — not the
 property, not the refactor — was corrected (section 6: E-C06-2, a false VIOLATION of C12 until the normaliser learned
 interval implication between comparison atoms; E-C11-2, an exit 2 of C10 until type facts tolerated an earlier library
-rejection); E-C08-1 needed the `llvm.abs` expansion first. One of these agents' differential drivers hung, which led to
+rejection; E-C19-3, an exit 2 of C19 from a malformed pattern of mine); E-C08-1 needed the `llvm.abs` expansion first. One of these agents' differential drivers hung, which led to
 defect D22.
 
 | change | anchored in | what was refactored | checks run | exit 1 | exit 2 | exit 0 |
